@@ -29,15 +29,21 @@ fn dir_hash(dir: &Path) -> String {
     h.finalize().to_hex().to_string()
 }
 
-fn opts(dir: &Path, rollback: bool) -> nomt::Options {
+fn opts(dir: &Path, rollback: bool, warm_up: bool, cc: usize) -> nomt::Options {
     let mut cfg = StoreCfg::default();
     cfg.hashtable_buckets = 64;
     cfg.rollback = rollback;
+    cfg.warm_up = warm_up;
+    cfg.commit_concurrency = cc;
     cfg.options(dir)
 }
 
 fn try_open(dir: &Path) -> Result<Nomt<Blake3Hasher>, String> {
-    Nomt::<Blake3Hasher>::open(opts(dir, true)).map_err(|e| format!("{e:#}"))
+    Nomt::<Blake3Hasher>::open(opts(dir, true, false, 1)).map_err(|e| format!("{e:#}"))
+}
+
+fn try_open_cfg(dir: &Path, warm_up: bool, cc: usize) -> Result<Nomt<Blake3Hasher>, String> {
+    Nomt::<Blake3Hasher>::open(opts(dir, true, warm_up, cc)).map_err(|e| format!("{e:#}"))
 }
 
 fn commit_some(n: &Nomt<Blake3Hasher>, seed: u64) -> anyhow::Result<()> {
@@ -96,10 +102,24 @@ fn scenario(id: u64, seed: u64, scratch: &Path, out: &mut dyn Write) -> anyhow::
     // A: first handle (creates the store), with I/O recording
     rec::install(&dir);
     rec::start(None);
-    let a = try_open(&dir);
-    log(out, json!({"ev":"open","who":"A","how":"thread","res": if a.is_ok() {"Ok"} else {"Err"}, "unchanged": true}))?;
+    // the first handle uses a random configuration (warm-up workers, several commit workers)
+    let warm = rng.chance(1, 2);
+    let cc = 1 + rng.below(3) as usize;
+    let a = try_open_cfg(&dir, warm, cc);
+    log(out, json!({"ev":"open","who":"A","how":"thread","res": if a.is_ok() {"Ok"} else {"Err"}, "unchanged": true, "warm_up": warm, "cc": cc}))?;
     let a = a.map_err(|e| anyhow::anyhow!(e))?;
     commit_some(&a, seed)?;
+    // sessions that are begun and abandoned (never finished), with and without warm-ups
+    for i in 0..rng.below(3) {
+        let s = a.begin_session(SessionParams::default());
+        if rng.chance(1, 2) {
+            let mut k = [0u8; 32];
+            Rng::new(seed + i).fill(&mut k);
+            s.warm_up(k);
+            let _ = s.read(k);
+        }
+        drop(s);
+    }
     // B: same process, other thread(s), racing
     let before = dir_hash(&dir);
     let racers = 1 + rng.below(3) as usize;
